@@ -96,7 +96,8 @@ pub fn c06(o: &Oracle, thorough: bool, seed: u64, rep: &Report) {
                         && (a.value == 0) == a.is_invalid() && (b.value == 0) == b.is_invalid()
                 });
                 cnt.fetch_add(1, Ordering::Relaxed);
-                if ok != Ok(true) && bad.fetch_add(1, Ordering::Relaxed) < 5 {
+                // a call that unwinds reports no rank at all: that is C05's statement, not C06's
+                if ok == Ok(false) && bad.fetch_add(1, Ordering::Relaxed) < 5 {
                     let op = if n == 5 { "rank5" } else { "rankn" };
                     viol(rep, json!({"op":op,"words":hilo_arr(&w)}), json!({"consistent_validated": true, "rank_consistent": true}),
                          "a reported rank is not the conversion of its own value (name / class do not describe the value)");
